@@ -172,3 +172,43 @@ pub fn expect_equal<O: Lbl, A: Lbl>(
     }
     true
 }
+
+/// Run a library call that must return; a panic is recorded as a violation of `<api>/returns`.
+pub fn lib<T>(ctx: &mut Ctx, api: &str, class: &str, input: &dyn Fn() -> Value, f: impl FnOnce() -> T) -> Option<T> {
+    let r = guard(f);
+    must_return(ctx, api, class, r, || input())
+}
+
+/// Both sides of a law, computed through the public API, must exist, be well-formed and be
+/// isomorphic.
+pub fn law<O: Lbl, A: Lbl>(
+    ctx: &mut Ctx,
+    name: &str,
+    class: &str,
+    lhs: Option<SOh<O, A>>,
+    rhs: Option<SOh<O, A>>,
+    input: &dyn Fn() -> Value,
+) -> Option<POh<O, A>> {
+    ctx.count(&format!("law:{}", name));
+    let (l, r) = match (lhs, rhs) {
+        (Some(l), Some(r)) => (l, r),
+        (l, r) => {
+            ctx.evaluations += 1;
+            ctx.violation(
+                &format!("{}/both-sides-defined/value/{}", name, class),
+                json!({"input": input(), "lhs_defined": l.is_some(), "rhs_defined": r.is_some()}),
+            );
+            return None;
+        }
+    };
+    let pl = walk(ctx, name, class, &l, input)?;
+    let pr = walk(ctx, name, class, &r, input)?;
+    let ty = pl.src_type() == pr.src_type() && pl.tgt_type() == pr.tgt_type();
+    if !ctx.check(ty, &format!("{}/same-type/value/{}", name, class), || {
+        json!({"input": input(), "lhs": show(&pl), "rhs": show(&pr)})
+    }) {
+        return None;
+    }
+    expect_iso(ctx, name, "law", class, &pl, &pr, input);
+    Some(pl)
+}
